@@ -53,10 +53,10 @@ Definition fdir_unpack (raw : bytes) : res fdir :=
 Definition fdir_eqb (a b : fdir) : bool :=
   hdr_eqb (fd_hdr a) (fd_hdr b) && (fd_type a =? fd_type b).
 
-(* _verify_file_len: note the code compares with > 2^64 / > 2^32 *)
+(* _verify_file_len (after repair 064a966: > 2^64 - 1 / > 2^32 - 1; before, 2^32 itself passed) *)
 Definition fdir_verify_file_len (f : fdir) (file_size : Z) : res unit :=
-  if hdr_large_file (fd_hdr f) && (file_size >? 2 ^ 64) then Err EValue
-  else if negb (hdr_large_file (fd_hdr f)) && (file_size >? 2 ^ 32) then Err EValue
+  if hdr_large_file (fd_hdr f) && (file_size >? 2 ^ 64 - 1) then Err EValue
+  else if negb (hdr_large_file (fd_hdr f)) && (file_size >? 2 ^ 32 - 1) then Err EValue
   else Ok tt.
 
 (* parse_fss_field(raw_packet, current_idx) -> (current_idx', file_size) *)
